@@ -52,11 +52,56 @@ Record RClosed (P : id -> Prop) (s : state) : Prop := mkRC {
   rc_top : forall n t, P n -> top s n = Some t -> P t
 }.
 
-(* two regions are separated in a state: both are closed and they share no object *)
+(* two regions are separated in a state: both are closed and they share no allocated object
+   (identifiers not yet allocated belong to both: whatever a later call on one side creates joins that side) *)
 Definition Separated (P Q : id -> Prop) (s : state) : Prop :=
-  RClosed P s /\ (forall x, P x -> Q x -> False) /\
-  (forall x, Q x -> x < next s) /\
-  (forall r x c, Q x -> In c (kids s r x) -> Q c).
+  RClosed P s /\ RClosed Q s /\ (forall x, x < next s -> P x -> Q x -> False).
+
+(* the links as a relation, and the FOOTPRINT of an element: everything reachable from it *)
+Inductive link (s : state) : id -> id -> Prop :=
+| LKid r x c : In c (kids s r x) -> link s x c
+| LPar r x p : par s r x = Some p -> link s x p
+| LWire i w : ipwire s i = Some w -> link s i w
+| LPinIn w i : In (PIn i) (wpins s w) -> link s w i
+| LPinOut w n i : In (POut n i) (wpins s w) -> link s w n
+| LOuter n i w : In (i, Some w) (ipins s n) -> link s n w
+| LRefs d x : In x (drefs s d) -> link s d x
+| LTop n t : top s n = Some t -> link s n t.
+
+Inductive footprint (s : state) (root : id) : id -> Prop :=
+| FRoot : footprint s root root
+| FStep x y : footprint s root x -> link s x y -> footprint s root y.
+
+Lemma rclosed_link P s x y : RClosed P s -> P x -> link s x y -> P y.
+Proof.
+  intros C Hx H. destruct H.
+  - eapply (rc_kids _ _ C); eassumption.
+  - eapply (rc_par _ _ C); eassumption.
+  - eapply (rc_ipwire _ _ C); eassumption.
+  - apply (rc_wpins _ _ C w (PIn i) Hx H).
+  - apply (rc_wpins _ _ C w (POut n i) Hx H).
+  - eapply (rc_ipins _ _ C); eassumption.
+  - eapply (rc_drefs _ _ C); eassumption.
+  - eapply (rc_top _ _ C); eassumption.
+Qed.
+
+(* a closed region contains the footprint of each of its elements *)
+Lemma rclosed_footprint P s root y : RClosed P s -> P root -> footprint s root y -> P y.
+Proof. intros C Hr H. induction H as [|x y _ IH L]; [exact Hr|]. apply (rclosed_link P s x y C IH L). Qed.
+
+(* and conversely a set that contains the unallocated identifiers and is closed under [link] is a region *)
+Lemma rclosed_of_link (P : id -> Prop) s :
+  (forall x, next s <= x -> P x) -> (forall x y, P x -> link s x y -> P y) -> RClosed P s.
+Proof.
+  intros F L. constructor; [exact F| | | | | | |].
+  - intros r x c Hx H. apply (L x c Hx (LKid s r x c H)).
+  - intros r x p Hx H. apply (L x p Hx (LPar s r x p H)).
+  - intros i w Hx H. apply (L i w Hx (LWire s i w H)).
+  - intros w p Hx H. destruct p as [i|n i|]; cbn; [apply (L w i Hx (LPinIn s w i H))|apply (L w n Hx (LPinOut s w n i H))|exact I].
+  - intros n i w Hx H. apply (L n w Hx (LOuter s n i w H)).
+  - intros d x Hx H. apply (L d x Hx (LRefs s d x H)).
+  - intros n t Hx H. apply (L n t Hx (LTop s n t H)).
+Qed.
 
 Definition Loc (P : id -> Prop) (s s' : state) : Prop := RClosed P s -> out_eq P s s' /\ RClosed P s'.
 
